@@ -200,6 +200,6 @@ CONDITIONS = [
     dict(fn="history4", cubes={"quick": ["c1 == %d and c2 == %d and c3 %s" % (a, b, c) for (a, b) in ((0, 0), (0, 1), (9, 0), (10, 10), (11, 11), (11, 2)) for c in ("<= 3", "in (4,5,6,7)", ">= 8")],
                                "thorough": ["c1 == %d and c2 == %d" % (a, b) for a in range(12) for b in range(12)]},
          twins=["reach"], bounds="histories of 4 operations: quick = those starting (L7,L7), (L7,L8), (method,L7), (no-action,no-action), (identical,identical), (identical,unregister); thorough = all 12^4"),
-    dict(fn="history5", cubes={"quick": ["c2 == 0 and c3 == 2 and c4 == 0", "c2 == 0 and c3 == 2 and c4 == 1", "c2 == 1 and c3 == 3 and c4 == 0"], "thorough": ["c2 == %d and c3 == %d" % (a, b) for a in range(2) for b in range(8)]},
-         twins=[], bounds="histories of 5 operations starting register L7, register L7|L8 (quick: register, register, unregister one, register, any; thorough: all)"),
+    dict(fn="history5", cubes={"quick": ["c2 == 0 and c3 == 2 and c4 == 0", "c2 == 0 and c3 == 2 and c4 == 1", "c2 == 1 and c3 == 3 and c4 == 0", "c2 == 0 and c3 == 0 and c4 == 0"], "thorough": ["c2 == %d and c3 == %d" % (a, b) for a in range(2) for b in range(8)]},
+         twins=[], bounds="histories of 5 operations starting register L7, register L7|L8 (quick: register, register, unregister one, register, any - and four registrations on one line followed by any operation; thorough: all)"),
 ]
